@@ -30,6 +30,9 @@ type ObjSpec struct {
 type Spec struct {
 	Objects []ObjSpec `json:"objects"`
 	NIds    int       `json:"n_ids"` // object ids are in [0,NIds)
+	// Epoch, if set, makes the data mutable: every generated field of object (typ,id) is a
+	// pure function of (id, field seed, args, Epoch(typ,id)). Not serialised.
+	Epoch func(typ string, id int64) int64 `json:"-"`
 }
 
 func (s *Spec) Obj(typ string) *ObjSpec {
@@ -126,7 +129,11 @@ func (s *Spec) mkUnion(u string, hv uint64) reflect.Value {
 // Compute is the world's data: the value of field f on object (typ,id) with args, as a Go
 // value of f.GoType(). It is a pure function of its inputs.
 func (s *Spec) Compute(typ string, id int64, f *FieldSpec, a ArgVal) reflect.Value {
-	hv := h(f.Seed, typ, id, a.key())
+	var ep int64
+	if s.Epoch != nil {
+		ep = s.Epoch(typ, id)
+	}
+	hv := h(f.Seed, typ, id, a.key(), ep)
 	isNil := f.NilMod > 0 && hv%uint64(f.NilMod) == 0
 	switch f.Ret {
 	case "int64":
